@@ -10,6 +10,7 @@ package filterstorage_test
 import (
 	"context"
 	"fmt"
+	"strings"
 	"sync"
 	"sync/atomic"
 	"testing"
@@ -42,26 +43,19 @@ func TestVerifC12Concurrent(t *testing.T) {
 		c := vc12NewCase(t, st, srv, base, 2)
 		defer c.close()
 
-		// The replay findings of the sequential part are kept out of this one:
-		// all requesters build messages alike and all requests look alike.
-		for _, r := range c.reqs[1:] {
-			r.TTL, r.Mode, r.EDE = c.reqs[0].TTL, c.reqs[0].Mode, c.reqs[0].EDE
-			if err := r.init(); err != nil {
-				panic(err)
-			}
-		}
-
+		// Requesters differ in TTL, blocking mode and EDE, and requests in flags,
+		// so that a message that reaches the wrong one shows.
 		var specs []vc12Spec
 		for range rapid.IntRange(4, 8).Draw(t, "nspecs") {
 			s := vc12Spec{
 				ri: rapid.IntRange(0, len(c.reqs)-1).Draw(t, "requester"),
 				q: vc12Q{
-					Host: rapid.SampledFrom(vc12Hosts).Draw(t, "host"),
+					Host: rapid.SampledFrom(vc12QueryHosts).Draw(t, "host"),
 					QT:   rapid.SampledFrom(vc12QTypes).Draw(t, "qt"),
 					QC:   dns.ClassINET,
 				},
 			}
-			vc12DrawFlags(t, &s.q, true)
+			vc12DrawFlags(t, &s.q, false)
 			specs = append(specs, s)
 		}
 
@@ -69,7 +63,12 @@ func TestVerifC12Concurrent(t *testing.T) {
 		ctx := context.Background()
 		ask := func(sd *vc12Side, s vc12Spec) (vc12Res, error) {
 			r := c.reqs[s.ri]
-			raw, err := sd.strg.ForConfig(ctx, r.config()).FilterRequest(ctx, s.q.request(r))
+			side := 1
+			if sd.cached {
+				side = 0
+			}
+
+			raw, err := sd.strg.ForConfig(ctx, r.config()).FilterRequest(ctx, s.q.request(r, side))
 
 			return vc12Render(raw), err
 		}
@@ -134,11 +133,27 @@ func TestVerifC12Concurrent(t *testing.T) {
 					signalled := false
 					for n := g; !stop.Load() || n < g+8; n++ {
 						during := refreshing.Load()
-						_, err := ask(c.cached, specs[n%len(specs)])
+						s := specs[n%len(specs)]
+						res, err := ask(c.cached, s)
+						why := ""
 						if err != nil {
+							why = err.Error()
+						} else {
+							why = vc12OwnMessage(c.reqs[s.ri], &s.q, res)
+						}
+
+						if why != "" {
 							errMu.Lock()
-							errs = append(errs, err.Error())
+							errs = append(errs, fmt.Sprintf("%s asking %s: %s", c.reqs[s.ri].Name, &s.q, why))
 							errMu.Unlock()
+						}
+
+						// The result goes through the pipeline and back to the pools.
+						if res.msg != nil {
+							vc12Scribble(res.msg)
+							if res.Kind == "modresp" {
+								c.cached.cloner.Dispose(res.msg)
+							}
 						}
 
 						if during && refreshing.Load() {
@@ -179,7 +194,7 @@ func TestVerifC12Concurrent(t *testing.T) {
 			if refreshErr != nil {
 				vc12Inconclusive(t, "refresh failed without an injected fault: %v", refreshErr)
 			} else if len(errs) > 0 {
-				c.failf("FilterRequest failed during a refresh: %q", errs)
+				c.failf("queries in flight during a refresh got errors or messages that are not theirs:\n%s", strings.Join(errs, "\n"))
 			}
 
 			// The reference is refreshed with nothing else running.
